@@ -1,6 +1,7 @@
 import PytypeModel.Proofs.BlocksOrderNodes
 import PytypeModel.Proofs.BlocksSurgery
 import PytypeModel.Proofs.BlocksPopBlock
+import PytypeModel.Proofs.BlocksSetupExcept
 
 /-! # C16 — every compiled code object becomes a well-formed ordered block graph
 
@@ -232,7 +233,63 @@ theorem table_block_facts :
   · decide +kernel
   · decide +kernel
 
+/-! ## exception-table markers (opcodes._add_setup_except) -/
+
+/-- **every try range that is opened is closed, and no instruction is lost** — `_partial`: for streams whose
+instruction offsets are even (wordcode), whose kept ranges start after offset 0 and end *on* an instruction
+(`stopsOnOps`; the driver reports the share of real streams outside this guard: pycnite's inclusive `end`
+sometimes falls between two instructions and `_add_exception_block` then takes the `max()` branch).
+For every exception-table entry the selection loop keeps, the items handed to `_make_opcode_list` contain a
+`SETUP_EXCEPT_311` filed at `start − ½` whose pre-set target is the handler's first op, and a `POP_BLOCK`
+filed at `end + ½`; and every input instruction is still present with its class and argument.
+(The marker keys are `≡ 3` and `≡ 1 (mod 4)` in doubled offsets, instructions `≡ 0`: no dict key can collide.
+With integer keys `start − 1` / `end + 1` two adjacent ranges would collide — seeded change c16-m3.) -/
+theorem try_ranges_closed_partial (ops : List PreOp) (entries : List ExcEntry) (out : List XOp)
+    (hev : evenOffs ops = true) (hst : stopsOnOps ops entries = true) (hsp : startsPos ops entries = true)
+    (h : addSetupExcept ops entries = .ok out) :
+    ∃ ks, kept ops entries = .ok ks ∧
+      (∀ e ∈ ks,
+        (∃ x ∈ out, x.off = 2 * e.start - 1 ∧ x.cls = Cls.SETUP_EXCEPT_311 ∧ x.pre = some (2 * e.target)) ∧
+        (∃ y ∈ out, y.off = 2 * e.stop + 1 ∧ y.cls = Cls.POP_BLOCK)) ∧
+      (∀ o ∈ ops, ∃ x ∈ out, x.off = 2 * o.off ∧ x.cls = o.cls ∧ x.argval = o.argval ∧ x.pre = none) :=
+  addSetupExcept_closed ops entries out hev hst hsp h
+
+/-- the selection loop keeps at most one entry per start offset (two entries with one start have one start
+line, and a line is kept once) — this is what makes the SETUP markers' keys pairwise distinct -/
+theorem kept_starts_distinct (ops : List PreOp) (entries : List ExcEntry) (ks : List ExcEntry)
+    (h : kept ops entries = .ok ks) : ks.Pairwise (fun a b => a.start ≠ b.start) :=
+  (keptFrom_spec ops entries [] ks h).2
+
+-- OPEN  try_ranges_closed (without `stopsOnOps`): when `e.end` is not an instruction offset the POP_BLOCK is filed
+--       after the largest key below it, which may itself be a marker of an earlier range; the statement then needs
+--       an invariant over the intermediate dicts.  Such streams are covered by the exact correspondence only.
+
 /-! ## non-vacuity -/
+
+/-- the same function before `_add_setup_except`: byte offsets, and its exception table -/
+def tryPre : List PreOp :=
+  [⟨0, Cls.RESUME, 0, 1⟩, ⟨2, Cls.NOP, 0, 2⟩, ⟨4, Cls.LOAD_GLOBAL, 0, 3⟩, ⟨14, Cls.CALL, 0, 3⟩,
+   ⟨22, Cls.STORE_FAST, 0, 3⟩, ⟨24, Cls.LOAD_FAST, 0, 6⟩, ⟨26, Cls.RETURN_VALUE, 0, 6⟩,
+   ⟨28, Cls.PUSH_EXC_INFO, 0, 0⟩, ⟨30, Cls.LOAD_GLOBAL, 0, 4⟩, ⟨40, Cls.CHECK_EXC_MATCH, 0, 4⟩,
+   ⟨42, Cls.POP_JUMP_IF_FALSE, 56, 4⟩, ⟨44, Cls.POP_TOP, 0, 4⟩, ⟨46, Cls.LOAD_CONST, 0, 5⟩,
+   ⟨48, Cls.STORE_FAST, 0, 5⟩, ⟨50, Cls.POP_EXCEPT, 0, 5⟩, ⟨52, Cls.LOAD_FAST, 0, 6⟩,
+   ⟨54, Cls.RETURN_VALUE, 0, 6⟩, ⟨56, Cls.RERAISE, 0, 4⟩, ⟨58, Cls.COPY, 0, 0⟩, ⟨60, Cls.POP_EXCEPT, 0, 0⟩,
+   ⟨62, Cls.RERAISE, 0, 0⟩]
+
+def tryTable : List ExcEntry := [⟨4, 22, 28, false⟩, ⟨28, 48, 58, true⟩, ⟨56, 56, 58, true⟩]
+
+-- the guards of `try_ranges_closed_partial` hold on it, one entry is kept, and the model's output is the
+-- stream `tryRaw` above (what the real `_add_setup_except` produced)
+example : evenOffs tryPre = true ∧ stopsOnOps tryPre tryTable = true ∧ startsPos tryPre tryTable = true := by
+  decide +kernel
+example : (kept tryPre tryTable).toOption = some [⟨4, 22, 28, false⟩] := by decide +kernel
+-- two adjacent ranges (the first ends where the second starts, 2 bytes apart): four distinct markers
+example : ((addSetupExcept [⟨0, Cls.RESUME, 0, 1⟩, ⟨2, Cls.NOP, 0, 2⟩, ⟨4, Cls.NOP, 0, 3⟩, ⟨6, Cls.NOP, 0, 4⟩,
+      ⟨8, Cls.PUSH_EXC_INFO, 0, 5⟩] [⟨2, 2, 8, false⟩, ⟨4, 6, 8, false⟩]).toOption.map
+    (·.map fun x => (x.off, x.cls))) =
+    some [(0, Cls.RESUME), (3, Cls.SETUP_EXCEPT_311), (4, Cls.NOP), (5, Cls.POP_BLOCK), (7, Cls.SETUP_EXCEPT_311),
+          (8, Cls.NOP), (12, Cls.NOP), (13, Cls.POP_BLOCK), (16, Cls.PUSH_EXC_INFO)] := by decide +kernel
+
 
 /-- `def f(x):\n try:\n  x = g()\n except E:\n  x = 2\n return x` after the real `_add_setup_except`
 (a synthetic SETUP_EXCEPT_311 at offset 3.5 with its pre-set target, a synthetic POP_BLOCK at 22.5) -/
@@ -285,5 +342,9 @@ example : (orderNodes [0, 1, 2, 3, 4] (outOf [(0, 1), (0, 2), (1, 3), (2, 3), (3
     some [0, 2, 1, 3] := by decide +kernel
 example : (computePredecessors [0, 1, 2] (outOf [(0, 1), (1, 2), (2, 1)])).toOption.map
     (fun pm => (G pm 0, G pm 1, G pm 2)) = some ([0], [1, 0, 2], [2, 1, 0]) := by decide +kernel
+
+-- the model of `_add_setup_except` turns the pre-stream `tryPre` into the stream `tryRaw` (what the real code produced)
+example : (addSetupExcept tryPre tryTable).toOption.map (·.map fun x => (x.off, x.cls, x.pre)) =
+    some (tryRaw.map fun q => (q.off, q.cls, q.pre)) := by decide +kernel
 
 end PytypeModel.Props.C16
